@@ -40,12 +40,18 @@ int ex_diffusion(const double *grid, int n, int ws, int we, const double *dcoef,
   })
 }
 // potential family: a x^2 + b sin(w x) + d ; constant c1 added before interpolation, c2 added as a constant spline
-int ex_spline_potential(const double *grid, int n, double a, double b, double w, double d, double c1, double c2, double *eig10, char *err, int errlen) {
+int ex_spline_potential(const double *grid, int n, double a, double b, double w, double d, double c1, double c2, int ws, int we, double *eig10, char *err, int errlen) {
   GUARD({
     std::vector<double> pts(grid, grid + n);
     auto v = spline_potential::interpolateFunction(pts, [=](double x) { return a * x * x + b * std::sin(w * x) + d + c1; });
+    if (ws > 0 || we < n) {
+      // restrict the potential to the window [ws,we): it is zero on the rest of the box (a step / well / barrier)
+      bspline::support::Support<double> sub(v.getSupport().getGrid(), (size_t)ws, (size_t)we);
+      std::vector<std::array<double, 4>> co(v.getCoefficients().begin() + ws, v.getCoefficients().begin() + (we - 1));
+      v = PSpline(sub, co);
+    }
     if (c2 != 0.0) {
-      const auto &sup = v.getSupport();
+      const auto sup = bspline::support::Support<double>::createWholeGrid(v.getSupport().getGrid());
       std::vector<std::array<double, 4>> co(sup.numberOfIntervals());
       for (auto &arr : co) { arr.fill(0.0); arr[0] = c2; }
       v = v + PSpline(sup, co);
